@@ -122,6 +122,17 @@ func (e *Env) serve(w http.ResponseWriter, r *http.Request) {
 		rc.handler(w, r)
 		return
 	}
+	if r.URL != nil && r.URL.Path == NextPath {
+		// the pipelined follow-up request of Program.Next
+		if rc.out.NextRan == 0 {
+			rc.out.NextWire = len(rc.conn.Wire)
+		}
+		rc.out.NextRan++
+		w.Header().Set(NextHeader, "1")
+		w.Header().Set("Content-Length", strconv.Itoa(len(NextBody)))
+		_, _ = w.Write([]byte(NextBody))
+		return
+	}
 	rc.runProgram(w)
 }
 
@@ -160,10 +171,40 @@ type RunOpt struct {
 	// Guard: freed buffers become inaccessible memory instead of being poisoned (track guard mode);
 	// only RunFeeds honours it
 	Guard bool
+	// Alloc selects one of nbio's own allocators instead of the tracking one: AllocAligned
+	// (mempool.NewAligned(): power-of-two buckets, an Append beyond the capacity returns a NEW
+	// handle and frees the old one) or AllocSTD (mempool.NewSTD(): plain make/append, Free does
+	// nothing). "" = the tracking allocator with Policy / Move. Only Run honours it.
+	Alloc string
+	// NoSweep skips the end-of-run scan of every freed buffer for writes after the free (a C11
+	// matter that costs a pass over all freed memory); the other ownership observations stay on.
+	NoSweep bool
+}
+
+// nbio's own allocators as values of RunOpt.Alloc.
+const (
+	AllocAligned = "aligned"
+	AllocSTD     = "std"
+)
+
+// Allocator builds the allocator the option stands for (t: the run's tracking allocator).
+func (o RunOpt) Allocator(t *track.T) mempool.Allocator {
+	switch o.Alloc {
+	case "":
+		return t
+	case AllocAligned:
+		return mempool.NewAligned()
+	case AllocSTD:
+		return mempool.NewSTD()
+	}
+	panic("verif harness: unknown allocator " + o.Alloc)
 }
 
 func (o RunOpt) String() string {
 	s := o.Policy.String()
+	if o.Alloc != "" {
+		s = "mempool:" + o.Alloc
+	}
 	if o.Move {
 		s += "+move"
 	}
@@ -186,6 +227,7 @@ type OpResult struct {
 	HeadEncoded bool
 	Chunked     bool
 	ContentLen  int
+	Sendfile    int // calls of the connection's Sendfile made by the operation
 }
 
 // StateInfo is the part of the private Response state the explorer needs in clear.
@@ -213,6 +255,8 @@ type Result struct {
 	Failed      int
 	HandlerWire int // wire length when the handler returned (the rest is flushResponse)
 	HandlerRan  bool
+	NextRan     int // how often the handler of the pipelined follow-up request ran
+	NextWire    int // wire length when it started (= where the first response ends)
 	Panic       string
 	PanicOp     int
 	Logs        []string
@@ -232,6 +276,7 @@ type runCtx struct {
 	hc      *nbhttp.Conn
 	parser  *nbhttp.Parser
 	t       *track.T
+	alloc   mempool.Allocator
 	out     *Result
 	env     *Env
 	handler func(w http.ResponseWriter, r *http.Request)
@@ -262,6 +307,7 @@ func (rc *runCtx) runProgram(w http.ResponseWriter) {
 	for i, op := range rc.prog.Ops {
 		cur = i
 		or := OpResult{Wire0: len(rc.conn.Wire)}
+		sf0 := rc.conn.NSF
 		switch op.K {
 		case OpCL:
 			res.Header().Set("Content-Length", strconv.Itoa(op.N))
@@ -306,6 +352,13 @@ func (rc *runCtx) runProgram(w http.ResponseWriter) {
 			n, err := res.ReadFrom(&io.LimitedReader{R: rc.env.File, N: int64(op.N)})
 			or.N, or.Err = n, errStr(err)
 			off += op.N
+		case OpRFX:
+			if _, err := rc.env.File.Seek(int64(op.Off), io.SeekStart); err != nil {
+				panic("verif harness: seek: " + err.Error())
+			}
+			n, err := res.ReadFrom(&io.LimitedReader{R: rc.env.File, N: int64(op.N)})
+			or.N, or.Err = n, errStr(err)
+			off += op.Count()
 		default:
 			panic("verif harness: unknown op " + op.K)
 		}
@@ -315,6 +368,7 @@ func (rc *runCtx) runProgram(w http.ResponseWriter) {
 		or.HeadEncoded = st.HeadEncoded
 		or.Chunked = st.Chunked
 		or.ContentLen = st.ContentLen
+		or.Sendfile = rc.conn.NSF - sf0
 		out.Ops = append(out.Ops, or)
 	}
 	st := res.VerifState()
@@ -429,13 +483,17 @@ func (e *Env) Run(prog Program, opt RunOpt, keepDump bool) *Result {
 	default:
 		panic("verif harness: unknown conn kind " + prog.Conn)
 	}
-	rc := &runCtx{prog: prog, conn: conn, hc: hc, t: t, out: out, env: e, keep: keepDump}
+	rc := &runCtx{prog: prog, conn: conn, hc: hc, t: t, alloc: opt.Allocator(t), out: out, env: e, keep: keepDump}
+	request := Versions[prog.Version].Request
+	if prog.Next {
+		request += NextRequest
+	}
 	e.runGuarded(rc, func() {
 		e.Engine.DisableSendfile = prog.Conn == ConnNoSF
 		parser := nbhttp.NewParser(hc, e.Engine, nbhttp.NewServerProcessor(), false, nil)
 		hc.Parser = parser
 		rc.parser = parser
-		err := parser.Parse([]byte(Versions[prog.Version].Request))
+		err := parser.Parse([]byte(request))
 		out.ParseErr = errStr(err)
 		parser.CloseAndClean(err)
 	})
@@ -462,7 +520,11 @@ func (e *Env) Run(prog Program, opt RunOpt, keepDump bool) *Result {
 		if i := bytes.IndexByte(out.Wire, track.PoisonByte); i >= 0 {
 			t.PoisonRead(nil, "conn.Write", fmt.Sprintf(" (wire byte %d of %d)", i, len(out.Wire)))
 		}
-		out.Viol = t.Violations()
+		if opt.NoSweep {
+			out.Viol = t.Found()
+		} else {
+			out.Viol = t.Violations()
+		}
 	}
 	return out
 }
@@ -470,8 +532,11 @@ func (e *Env) Run(prog Program, opt RunOpt, keepDump bool) *Result {
 // runGuarded installs the case's allocator and handler context, runs body on its own goroutine
 // and turns a call that does not come back within the watchdog time into Result.Hang.
 func (e *Env) runGuarded(rc *runCtx, body func()) {
-	mempool.DefaultMemPool = rc.t
-	e.Engine.BodyAllocator = rc.t
+	if rc.alloc == nil {
+		rc.alloc = rc.t
+	}
+	mempool.DefaultMemPool = rc.alloc
+	e.Engine.BodyAllocator = rc.alloc
 	e.cur = rc
 	e.TakeLogs()
 	done := make(chan struct{})
